@@ -22,12 +22,17 @@ RULE = ("(limit S as int / float / Decimal / spelling, optional companion time c
         "quantity; adversarial strings over the parser alphabet are compared model vs code.  non-trivial = at least "
         "one rotation and at least one append without rotation; distinct by (spec, encoding, P, message texts)")
 TRUSTED = [
-    "float arithmetic of parse_size is outside: the model computes the exact rational, the oracle accepts a relative "
-    "error of 2^-48 and limits used in sink runs are exactly representable",
+    "Py/Float64.lean (IEEE-754 binary64: correctly rounded float(str), int->float, *, /) is a hand-written model; it is "
+    "compared bit for bit with the doubles parse_size returns (stream 5) and its exactness on dyadic values with a "
+    "53-bit numerator is proved (F64.roundPos_exact); size conditions built from strings carry the exact-decimal "
+    "quantity, the value oracle accepts a relative error of 2^-48",
+    "Rotation/Stream.lean (append-mode text stream: OS bytes, pending bytes, descriptor position) is a hand-written "
+    "model of CPython's io, compared with real streams for eight buffering settings (stream 4)",
     "encodings are an oracle (bytes = len(message.encode(...))); only stateless encodings whose tell() is a byte offset "
     "(utf-8, latin-1, utf-16-le) are exercised",
 ]
-ASSUMPTIONS = ["file.tell() after seek(0, 2) is the size of the file in bytes", "frozen clock for companion time conditions"]
+ASSUMPTIONS = ["file.tell() after seek(0, 2) is the size of the file in bytes (checked on real streams in stream 4; a failure is "
+               "reported as a broken assumption, it would be CPython's)", "frozen clock for companion time conditions"]
 
 CONTENT = {
     "ascii": "abcxyz019 _-",
@@ -465,16 +470,13 @@ def run_float_stream(ctx, drv, rng):
             ctx.stat("parse_size_binary64:fractional")
         lines.append("sizef " + enc(text))
         exp.append((text, float_obs(r)))
-    try:
-        out = drv.run(lines)
-    except core.DriverError as e:
-        ctx.broke("driver:" + DRIVER, str(e))
-        out = []
-    for (text, want), o in zip(exp, out):
-        ctx.traces_validated += 1
-        if model_float_obs(o) != want:
-            ctx.stat("disagreements")
-            ctx.broke("correspondence Rotation.parseSizeF", "parse_size(%r): Python %s, binary64 model %s" % (text, want, o))
+    def judge(out):
+        for (text, want), o in zip(exp, out):
+            ctx.traces_validated += 1
+            if model_float_obs(o) != want:
+                ctx.stat("disagreements")
+                ctx.broke("correspondence Rotation.parseSizeF", "parse_size(%r): Python %s, binary64 model %s" % (text, want, o))
+    return lines, judge
 
 
 def run_text_stream(ctx, drv, rng):
@@ -528,10 +530,10 @@ def run_text_stream(ctx, drv, rng):
                         vals.append(v)
                         toks.append("Ms")
                         if v != total:
-                            ctx.violation("text stream opened with buffering=%r: after seek(0, 2) tell() is %d but the file "
-                                          "holds %d bytes (ops %s)" % (buffering, v, total, " ".join(toks)),
-                                          {"stream": "textstream", "buffering": buffering, "ops": toks, "observed": v,
-                                           "expected": total})
+                            # a property of CPython's io, not of loguru: an assumption of the proof that no longer holds
+                            ctx.broke("assumption: file.tell() after seek(0, 2) is the size of the file",
+                                      "text stream opened with buffering=%r: after seek(0, 2) tell() is %d but the file "
+                                      "holds %d bytes (ops %s)" % (buffering, v, total, " ".join(toks)))
                 disk = os.stat(path).st_size
                 pos = os.lseek(f.fileno(), 0, os.SEEK_CUR)
             finally:
@@ -544,16 +546,13 @@ def run_text_stream(ctx, drv, rng):
             exp.append((buffering, toks, "ok %s %d %d %d" % (",".join(str(v) for v in vals), disk, total - disk, pos)))
     finally:
         shutil.rmtree(d, ignore_errors=True)
-    try:
-        out = drv.run(lines)
-    except core.DriverError as e:
-        ctx.broke("driver:" + DRIVER, str(e))
-        out = []
-    for (buffering, toks, want), o in zip(exp, out):
-        ctx.traces_validated += 1
-        if o != want:
-            ctx.stat("disagreements")
-            ctx.broke("correspondence Rotation.Stream", "buffering=%r ops=%s: CPython %r, model %r" % (buffering, " ".join(toks), want, o))
+    def judge(out):
+        for (buffering, toks, want), o in zip(exp, out):
+            ctx.traces_validated += 1
+            if o != want:
+                ctx.stat("disagreements")
+                ctx.broke("correspondence Rotation.Stream", "buffering=%r ops=%s: CPython %r, model %r" % (buffering, " ".join(toks), want, o))
+    return lines, judge
 
 
 def canon_files(idx_lists):
@@ -907,10 +906,17 @@ def run(ctx):
         if not good:
             ctx.stat("disagreements")
             ctx.broke("correspondence Rotation.parseSize", "parse_size(%r): impl %r, model %r" % (s, e, o))
-    # ---- stream 5: parse_size in binary64, bit for bit
-    run_float_stream(ctx, drv, rng.fork("float"))
-    # ---- stream 4: CPython's buffered text stream vs the stream model (what `tell` is)
-    run_text_stream(ctx, drv, rng.fork("textstream"))
+    # ---- stream 5: parse_size in binary64, bit for bit; stream 4: CPython's buffered text stream vs the stream model
+    # (what `tell` is) – one driver process for both
+    l5, judge5 = run_float_stream(ctx, drv, rng.fork("float"))
+    l4, judge4 = run_text_stream(ctx, drv, rng.fork("textstream"))
+    try:
+        out = drv.run(l5 + l4)
+    except core.DriverError as e:
+        ctx.broke("driver:" + DRIVER, str(e))
+        out = []
+    judge5(out[:len(l5)])
+    judge4(out[len(l5):])
     R.dedup_broken(ctx)
 
 
